@@ -84,6 +84,43 @@ func runRace(prop string, rounds int) int {
 				}
 			}
 		}
+		// steady state: the codecs exist, several goroutines encode and decode different values of
+		// one type through them at once, under each option combination
+		for round := 0; round < rounds; round += 10 {
+			for _, fl := range [][2]bool{{false, false}, {true, false}, {false, true}, {true, true}} {
+				p := &plenc.Plenc{ProtoCompatibleTime: fl[0], ProtoCompatibleArrays: fl[1]}
+				p.RegisterDefaultCodecs()
+				rt := reflect.TypeOf(Steady{})
+				const n, iters = 4, 40
+				var want [n][iters]string
+				for i := 0; i < n; i++ {
+					for k := 0; k < iters; k++ {
+						want[i][k] = guard(workerFor(p, rt, uint64(round*1000+i*iters+k)))
+					}
+				}
+				var wg sync.WaitGroup
+				var mu sync.Mutex
+				start := make(chan struct{})
+				for i := 0; i < n; i++ {
+					i := i
+					wg.Add(1)
+					go func() {
+						defer wg.Done()
+						<-start
+						for k := 0; k < iters; k++ {
+							if got := guard(workerFor(p, rt, uint64(round*1000+i*iters+k))); got != want[i][k] {
+								mu.Lock()
+								report("steady state flags %v round %d goroutine %d call %d: got %s want %s", fl, round, i, k, clip(got, 300), clip(want[i][k], 300))
+								mu.Unlock()
+								return
+							}
+						}
+					}()
+				}
+				close(start)
+				wg.Wait()
+			}
+		}
 	case "C19":
 		for round := 0; round < rounds; round++ {
 			p := &plenc.Plenc{}
@@ -103,7 +140,7 @@ func runRace(prop string, rounds int) int {
 					<-start
 					r := NewRNG(uint64(round*31 + i))
 					for k := 0; k < 200; k++ {
-						d := []byte(fmt.Sprintf("v%d", r.Intn(40+round%100)))
+						d := []byte(fmt.Sprintf("v%d", r.Intn(40+round%100+(round%7)*90))) // up to ~700 distinct values: past any small-table strategy
 						buf := append(refTag(1, 2), lenPrefixed(d)...)
 						var v internHolder
 						if err := p.Unmarshal(buf, &v); err != nil {
